@@ -49,6 +49,11 @@ func genSessParams(g *Gen, maxConn int) SessParams {
 		p.WireLimit = 0 // default 16640
 	}
 	p.LateConns = g.Bool(0.6)
+	if p.LateConns {
+		for i := 1; i < p.NConn; i++ {
+			p.LateAfter = append(p.LateAfter, g.Pick(0, 0, 1, 8, 9, 100, 1000, 5000))
+		}
+	}
 	if g.Bool(0.5) {
 		for i := 0; i < p.NConn; i++ {
 			p.Weights = append(p.Weights, []float64{1, 1, 0.3, 0.05, 0.01}[g.Rng.IntN(5)])
@@ -104,6 +109,8 @@ func genC01(g *Gen) any {
 
 type streamWorkload struct {
 	c      *Ctx
+	sw     *SessWorld
+	sRead  int // bytes read so far by the accepting side
 	key    uint64
 	limit  int
 	states []*streamState
@@ -159,6 +166,10 @@ func (wl *streamWorkload) readPat(r io.Reader, st *streamState, dir, n int, prog
 				return false
 			}
 			*progress += m
+			if dir == 0 && wl.sw != nil {
+				wl.sRead += m
+				wl.sw.Progress(wl.sRead)
+			}
 		}
 		if err != nil {
 			wl.c.Fail("stream-error", "error:read", "%s stream tag %d dir %d: Read returned %v after %d of %d bytes on a healthy session", what, st.tag, dir, err, *progress, n)
@@ -224,6 +235,10 @@ func (wl *streamWorkload) acceptor(stream net.Conn) {
 		wl.c.Fail("stream-error", "error:read", "acceptor reading tag: %v", err)
 		return
 	}
+	if wl.sw != nil {
+		wl.sRead += tagLen
+		wl.sw.Progress(wl.sRead)
+	}
 	tag, ok := getTag(tagb)
 	if !ok || int(tag) >= len(wl.states) {
 		wl.c.Fail("stream-data", "data:mismatch", "accepted stream starts with %x, not a tag", tagb)
@@ -250,7 +265,7 @@ func runStreamWorkload(c *Ctx, sw *SessWorld, patKey uint64, plans []StreamPlan)
 	if limit <= 0 {
 		limit = 16640
 	}
-	wl := &streamWorkload{c: c, key: patKey, limit: limit - 14 - 255}
+	wl := &streamWorkload{c: c, sw: sw, key: patKey, limit: limit - 14 - 255}
 	for i, pl := range plans {
 		wl.states = append(wl.states, &streamState{plan: pl, tag: uint32(i)})
 	}
